@@ -18,7 +18,7 @@ InsertP(p, s) == IF s = <<>> THEN <<p>> ELSE IF BLess(p[1], s[1][1]) THEN <<p>> 
 SortP(s) == IF s = <<>> THEN <<>> ELSE InsertP(s[1], SortP(Tail(s)))
 
 IntFits(s, v) == CASE s.k = "u128" -> \A i \in 9..16 : v[i] = 0
-                   [] s.k = "i128" -> IF Neg(v) THEN (\A i \in 9..16 : v[i] = 255) /\ v[8] >= 128 ELSE (\A i \in 9..16 : v[i] = 0) /\ v[8] < 128
+                   [] s.k = "i128" -> IF Neg(v) THEN (\A i \in 9..16 : v[i] = 255) /\ v[8] >= 128 ELSE (\A i \in 9..16 : v[i] = 0)   \* i64 or u64 range: what serde_json can hold
                    [] OTHER -> TRUE
 JInt(s, v) == IF Signed(s.k) /\ Neg(v) THEN [t |-> "i", v |-> Ext(SubSeq(v, 1, IF Len(v) > 8 THEN 8 ELSE Len(v)), 255)]
               ELSE [t |-> "u", v |-> Ext(SubSeq(v, 1, IF Len(v) > 8 THEN 8 ELSE Len(v)), 0)]
